@@ -309,6 +309,13 @@ def gen_multi(rng, name, nmods):
                 g.fn(n, [('a', 'int')], 'int', '    return (+ 1 (Inner.%s a%s))' % (fn0[0][0], ' 3' if fn0[0][1] == 'int2' else ''),
                      '    assert (== (%s 2) (%s 2))' % (n, n))
                 g.exports.append((n, 'int1'))
+        if rng.random() < 0.4:
+            # the module declares a libc extern and wraps it (import-table entries of the .nvm, extern prototypes of the C)
+            ext, arg, res = rng.choice([('labs', '-7', '7'), ('toupper', '97', '65'), ('tolower', '65', '97')])
+            header += 'extern fn %s(x: int) -> int\n\n' % ext
+            n = g.fresh('ffi')
+            g.fn(n, [('a', 'int')], 'int', '    return (%s a)' % ext, '    assert (== (%s %s) %s)' % (n, arg, res))
+            g.exports.append((n, 'int1'))
         files[mname + '.nano'] = g.text(header=header, with_main=False)
         mods.append((mname, g))
     m = PG(rng)
@@ -355,7 +362,12 @@ W_MOD2 = dict(name='w_mod2', kind='ok', flavor='witness-mod', main='main.nano', 
     'm2.nano': 'module m2\n\npub fn greet(n: string) -> string {\n    return (+ "hi " n)\n}\n\nshadow greet {\n    assert (== (greet "a") "hi a")\n}\n',
     'main.nano': 'from "m2.nano" import greet\nimport "m1.nano" as M\n\nfn main() -> int {\n    (println (greet "dup"))\n    (println "dup")\n'
                  '    (println (M.add 1 2))\n    return 0\n}\n\nshadow main {\n    assert (== (main) 0)\n}\n'})
-WITNESSES = [W_MIN, W_STRINGS, W_MOD, W_MOD2]
+W_EXT = dict(name='w_ext', kind='ok', flavor='witness-mod', main='main.nano', files={
+    'clib.nano': '/* thin FFI module */\nextern fn labs(x: int) -> int\nextern fn toupper(c: int) -> int\n\npub fn magnitude(x: int) -> int {\n    return (labs x)\n}\n\n'
+                 'shadow magnitude {\n    assert (== (magnitude -3) 3)\n}\n',
+    'main.nano': 'import "clib.nano"\n\nfn main() -> int {\n    let a: int = (magnitude -41)\n    let b: int = (toupper 97)\n    (println a)\n    (println b)\n'
+                 '    return 0\n}\n\nshadow main {\n    assert (== (main) 0)\n}\n'})
+WITNESSES = [W_MIN, W_STRINGS, W_MOD, W_MOD2, W_EXT]
 PATH_WITNESS = 'w_mod'        # the input-path-spelling finding is keyed on this program
 
 _ILL_TAIL = '\nfn main() -> int {\n    (println (f 1 2))\n    return 0\n}\n\nshadow main {\n    assert (== (main) 0)\n}\n'
@@ -660,7 +672,8 @@ def compare(prog, kind, base, res):
     det = dict(first_diff_offset=k, a_hex_window=ha, b_hex_window=hb, a_len=len(a), b_len=len(b),
                a_text_window=a[max(0, k - 60):k + 60].decode('utf-8', 'replace') if kind != 'nvm' else None,
                b_text_window=b[max(0, k - 60):k + 60].decode('utf-8', 'replace') if kind != 'nvm' else None)
-    if kind in ('nvm', 'genc'):
+    if kind == 'genc':
+        # (.nvm gets no such tolerance: the recorded finding is about generated C only, "the .nvm is unaffected")
         na = _norm_spelling(a, base.get('spelling_prefix', b''), prog['files'].keys())
         nb = _norm_spelling(b, res.get('spelling_prefix', b''), prog['files'].keys())
         if na == nb:
